@@ -36,6 +36,7 @@ type Sched struct {
 	Switches []Switch
 	OnSwitch func(from, to int, site int) // runs with the clock paused
 	Foreign  bool                         // a yield arrived from a goroutine that holds no baton
+	Bias     int                          // >0: a due plan entry fires only at a yield whose site class equals Bias
 	cur      int
 	pos      int
 	base     uint64
@@ -74,6 +75,9 @@ func (s *Sched) hook(site int) {
 	}
 	k := Now() - s.base
 	for s.pos < len(s.Plan) && uint64(s.Plan[s.pos][0]) <= k {
+		if s.Bias > 0 && SiteClass(site) != s.Bias {
+			return
+		}
 		next := s.Plan[s.pos][1]
 		s.pos++
 		if next < 0 || next >= len(s.Tasks) || next == s.cur || s.Tasks[next].Finished {
